@@ -95,6 +95,31 @@ pub fn set_emb_limit(n: u32) {
     }
 }
 
+/// A Vec whose backing store is a typed stack array.  CBMC keeps struct/enum typing for stack objects but
+/// models heap allocations as untyped byte arrays: an enum stored in a heap Vec loses its constant
+/// discriminant and every later `match` on it explores all arms with garbage payloads (measured: one
+/// concrete Subpacket in a `vec![..]` + a trivial match: > 100 s; stack-backed: 1 s).  The Vec must not be
+/// dropped or grown: harnesses mem::forget its owner.
+macro_rules! stack_vec {
+    ($arr:ident, $n:expr) => {{
+        #[allow(unsafe_code)]
+        let v = unsafe { Vec::from_raw_parts($arr.as_mut_ptr(), $n, $n) };
+        v
+    }};
+}
+pub(crate) use stack_vec;
+/// empty Vec<T> whose (unused) backing store is a real stack object: `Vec::new()` uses a dangling
+/// integer-derived pointer, and CBMC does not fold `ptr == end` on those, so loops over the empty Vec are
+/// unrolled to the unwind bound over garbage elements
+macro_rules! stack_vec_empty {
+    ($store:ident, $t:ty) => {{
+        #[allow(unsafe_code)]
+        let v: Vec<$t> = unsafe { Vec::from_raw_parts($store.as_mut_ptr() as *mut $t, 0, 1) };
+        v
+    }};
+}
+pub(crate) use stack_vec_empty;
+
 /// proof harness with the standard stub set
 macro_rules! vproof {
     ($name:ident, $uw:expr, $body:block) => {
@@ -220,16 +245,25 @@ impl<const K: usize> Pack<K> {
         }
         ok
     }
-    /// serialised form used as the "digest value": len || words
-    pub fn to_bytes(&self) -> Vec<u8> {
-        let mut out = Vec::with_capacity(2 + 16 * K);
-        out.push(self.len as u8);
-        out.push(self.over as u8);
-        let mut k = 0;
-        while k < K {
-            out.extend_from_slice(&self.w[k].to_be_bytes());
-            k += 1;
+    /// serialised form used as the "digest value": len || over || words (fixed size 2 + 16*K, no loops, no Vec growth)
+    pub fn to_bytes(&self) -> Box<[u8]> {
+        let mut out = vec![0u8; 2 + 16 * K].into_boxed_slice();
+        out[0] = self.len as u8;
+        out[1] = self.over as u8;
+        macro_rules! word {
+            ($k:expr) => {
+                if $k < K {
+                    let b = self.w[$k].to_be_bytes();
+                    out[2 + 16 * $k..2 + 16 * $k + 16].copy_from_slice(&b);
+                }
+            };
         }
+        word!(0);
+        word!(1);
+        word!(2);
+        word!(3);
+        word!(4);
+        word!(5);
         out
     }
     pub fn from_bytes(b: &[u8]) -> Self {
@@ -271,10 +305,10 @@ impl<const K: usize> DynDigest for Rec<K> {
         Box::new(self.clone())
     }
     fn finalize(self: Box<Self>) -> Box<[u8]> {
-        self.p.to_bytes().into_boxed_slice()
+        self.p.to_bytes()
     }
     fn finalize_reset(&mut self) -> Box<[u8]> {
-        let b = self.p.to_bytes().into_boxed_slice();
+        let b = self.p.to_bytes();
         self.p = Pack::default();
         b
     }
